@@ -41,6 +41,19 @@ def invalid_utf8_response(rng: random.Random, type_: str) -> bytes:
     return bytes([0, 0, 0x84, 0, 0, 0, 0, len(recs), 0, 0, 0, 0]) + b''.join(recs)
 
 
+def odd_address_response(rng: random.Random) -> bytes:
+    """SRV for the instance a lookup is waiting for, plus address records of its host whose rdata has an impossible length."""
+    inst = wire.enc_name('Lost._http._tcp.local.')
+    host = wire.enc_name('lost.local.')
+    rd = bytes([0, 0, 0, 0, 0, 80]) + host
+    recs = [inst + bytes([0, 33, 0x80, 1]) + (120).to_bytes(4, 'big') + len(rd).to_bytes(2, 'big') + rd]
+    for _ in range(rng.choice([1, 2])):
+        n = rng.choice([0, 1, 3, 5, 15, 17, 32])
+        t = rng.choice([1, 28, 28])
+        recs.append(host + bytes([0, t, 0x80, 1]) + (120).to_bytes(4, 'big') + n.to_bytes(2, 'big') + rng.randbytes(n))
+    return bytes([0, 0, 0x84, 0, 0, 0, 0, len(recs), 0, 0, 0, 0]) + b''.join(recs)
+
+
 def gen_c15(rng: random.Random, sid: str, thorough: bool) -> dict:
     from props import c02
     base = rf.gen_resp(rng, sid, 'c12', thorough)
@@ -64,9 +77,17 @@ def gen_c15(rng: random.Random, sid: str, thorough: bool) -> dict:
                                                        (sp['name'], wire.T_SRV, 0x8001, 120, (0, 0, sp['port'], sp['host'])),
                                                        (sp['name'], wire.T_TXT, 0x8001, 4500, bytes.fromhex(sp['txt']))]))
     n = rng.choice([50, 120, 300]) if not thorough else rng.choice([50, 200, 500])
+    # an HINFO record (parsed, never sent by the library) with text that is not UTF-8, alone and next to an announcement
+    hinfo = wire.enc_name('remote.local.') + bytes([0, 13, 0x80, 1]) + (120).to_bytes(4, 'big')
+    cpu, os_ = bytes([0xE9, 0x74, 0xE9]), b'Linux \xff'
+    hrd = bytes([len(cpu)]) + cpu + bytes([len(os_)]) + os_
+    valid.append(bytes([0, 0, 0x84, 0, 0, 0, 0, 1, 0, 0, 0, 0]) + hinfo + len(hrd).to_bytes(2, 'big') + hrd)
     nq = 12                 # the first 12 valid messages are queries
-    for _ in range(n):
+    for k in range(n):
         r = rng.random()
+        if k % 25 == 10:
+            # keep a lookup waiting for records throughout the stream
+            steps.append({'op': 'lookup', 'type': REMOTE_T, 'name': 'Lost._http._tcp.local.', 'timeout': rng.choice([3000, 10000])})
         if r < 0.06:
             # a query with the TC bit (held back 400-500 ms for its continuation) followed, or not, by more traffic from the
             # same address while it is held
@@ -88,8 +109,10 @@ def gen_c15(rng: random.Random, sid: str, thorough: bool) -> dict:
             data = c02.hostile(rng)
         elif r < 0.66:
             data = invalid_utf8_query(rng)
-        elif r < 0.7:
+        elif r < 0.68:
             data = invalid_utf8_response(rng, rng.choice([REMOTE_T, svcs[0]['type']]))
+        elif r < 0.7:
+            data = odd_address_response(rng)
         elif r < 0.76:
             big = rng.choice(valid)
             data = big + rng.randbytes(rng.choice([8967, 9000, 20000]) - len(big)) if rng.random() < 0.7 else rng.randbytes(8967)
@@ -115,7 +138,10 @@ def gen_c15(rng: random.Random, sid: str, thorough: bool) -> dict:
     steps += [{'op': 'at', 't': t}, {'op': 'expect_added', 'name': CANARY}]
     t += 1000
     steps.append({'op': 'at', 't': t})
-    return {'id': sid, 'seed': rng.randint(0, 10 ** 9), 'steps': steps, 'layout': rng.choice(['single', 'split']), 'rand': None}
+    layout = rng.choice(['single', 'split', 'dual'])
+    # on the dual-stack layout the peers are IPv6 hosts (4-tuple source addresses with a scope id) most of the time
+    return {'id': sid, 'seed': rng.randint(0, 10 ** 9), 'steps': steps, 'layout': layout, 'rand': None,
+            'v6src': layout == 'dual' and rng.random() < 0.7}
 
 
 def disc(sc: dict, tr: dict, clause: str, pos: int) -> str:
